@@ -228,4 +228,23 @@ def run(facts, rep, tier, ctx):
     # reader window (C14's read shape) and PhysicalFS open options decide which bytes come back
     h.read_rules(rep, "R04.r")
     physrules.table_o_shape(facts, rep, "R04.2p", ws)
+    # the async port: same publication / session-start / length / routing clauses on its own copies of the code
+    wa = World(facts, True)
+    rep.ob("R04.A", "async_vfs", "async world present", wa.present(), "", "")
+    if wa.present():
+        from .c10 import _Prefixed
+        A = _Prefixed(rep, "A")
+        ha = Handles(facts, True, D)
+        k = ha.writer_rules(A, "R04.1", "R04.1d", "R04.1t")
+        k += ha.flush_publishes(A, "R04.1f")
+        k += session_start_rules(facts, A, wa, D)
+        k += length_rules(facts, A, wa, D)
+        pra = PathRules(facts, wa, D)
+        k += pra.generic_routes(A, "R04.4")
+        k += c09.table_u(facts, A, wa, "R04.4u", only=("append_file",))
+        k += overlay_read_delegation(facts, A, wa)
+        k += read_to_string_rules(facts, A, wa, D)
+        ha.read_rules(A, "R04.r")
+        physrules.table_o_shape(facts, A, "R04.2p", wa)
+        rep.floor("async-world obligations", k, 30)
     rep.assume("std Cursor / File / io::copy honour their contracts")
